@@ -252,10 +252,12 @@ def run(ctx):
     z = dsgen.Model(drv); zr = z.send("zero"); z.close()
     ctx.cov["generated_optimalBatchSizes_at_zero"] = zr.split(" | ")[0]
     feed = os.path.join(core.VERIF, "tools", "obsfeed.py")
-    for ty, shape in dsgen.types(TYPES, 'VERIF_C03_TYPES'):
+    def one(t):
+        ty, shape = t
         hcmd = [exe, ty]
         dcmd = [sys.executable, feed, RNG_OPS, exe, ty, "--", drv, *shape]
-        core.correspond(ctx, f"K-C03[{ty}]", cases, hcmd, dcmd, dsgen.classify, env=dsgen.ASAN_ENV)
+        return core.correspond(ctx, f"K-C03[{ty}]", cases, hcmd, dcmd, dsgen.classify, env=dsgen.ASAN_ENV)
+    dsgen.run_types(one, dsgen.types(TYPES, 'VERIF_C03_TYPES'))
 
 
 def replay(ctx, rep):
